@@ -79,6 +79,14 @@ def run(tier, replay=None):
     scns = []
     def add(**kw):
         kw["scn"] = len(scns); scns.append(igz.scenario(**kw))
+    # the first call's output room swept over every small value, with a gzip / zlib header to be written in front of the custom block header, and a
+    # table installation attempted after every call (static and custom in turn): the header may be left half written at any byte
+    for cls in ("text", "lowent"):
+        data = igz.corpus(rng, cls, 900)
+        for wrap in (1, 3):
+            for table in (2, 3):
+                for ao in range(1, 200 if tier == "quick" else 400, 1 if tier == "thorough" or cls == "text" else 3):
+                    add(api="deflate", inp=data, level=0, wrap=wrap, table=table, calls=[[450, ao, [0, 1, 2][ao % 3], 0], [450, 1 << 16, 0, 1]], tail_ao=1 << 16, meta={"hist": "collected-" + cls + "-first-output-sweep", "table": table})
     k = 0
     for name, ll, d in H:
         for table in (4, 5):
